@@ -608,6 +608,39 @@ func (g *Gen) Valid() Fragment {
 			if t == nil {
 				continue
 			}
+			if it := g.pickExisting("interface"); it != nil && g.T.Bool(1, 5) {
+				already := false
+				for _, i := range t.Interfaces {
+					if i == it.Name {
+						already = true
+					}
+				}
+				clash := false
+				for _, f := range it.Fields {
+					for _, have := range t.Fields {
+						if have.Name == f.Name {
+							clash = true
+						}
+					}
+				}
+				if !already && !clash {
+					var b strings.Builder
+					fmt.Fprintf(&b, "extend type %s implements %s {\n", t.Name, it.Name)
+					for _, f := range it.Fields {
+						b.WriteString("  " + f.Name)
+						if len(f.Args) > 0 {
+							var as []string
+							for _, a := range f.Args {
+								as = append(as, a.Name+": "+a.Type)
+							}
+							b.WriteString("(" + strings.Join(as, ", ") + ")")
+						}
+						b.WriteString(": " + f.Type + "\n")
+					}
+					b.WriteString("}\n")
+					return Fragment{Kind: "extend_object_implements", Text: b.String(), Mutates: true}
+				}
+			}
 			if g.T.Bool(1, 4) {
 				if du := g.dirUse(t.Dirs); du != "" {
 					return Fragment{Kind: "extend_object_dir", Text: fmt.Sprintf("extend type %s %s {\n}\n", t.Name, du), Mutates: true}
@@ -800,7 +833,7 @@ func (g *Gen) Poison() Fragment {
 			}
 		case 3:
 			n := g.fresh("T")
-			switch g.T.Draw(10) {
+			switch g.T.Draw(15) {
 			case 0:
 				return Fragment{Kind: "poison:validation:empty_object", Text: "type " + n + " {\n}\n"}
 			case 1:
@@ -832,6 +865,34 @@ func (g *Gen) Poison() Fragment {
 					// the extend is applied, validation fails afterwards
 					return Fragment{Kind: "poison:validation:extend_then_invalid", Mutates: true,
 						Text: fmt.Sprintf("extend type %s {\n  %s: %s\n}\n", obj.Name, g.fresh("f"), input.Name)}
+				}
+			case 10:
+				d := g.fresh("d")
+				return Fragment{Kind: "poison:validation:directive_loop", Text: fmt.Sprintf("directive @%s(x: Int @%s) on ARGUMENT_DEFINITION\n", d, d)}
+			case 11:
+				return Fragment{Kind: "poison:validation:directive_default_not_coercible", Text: fmt.Sprintf("directive @%s(x: Int = \"str\") on OBJECT\n", g.fresh("d"))}
+			case 12:
+				return Fragment{Kind: "poison:validation:directive_bad_location", Text: fmt.Sprintf("directive @%s on NOWHERE\n", g.fresh("d"))}
+			case 13:
+				if iface := g.pickExisting("interface"); obj != nil && iface != nil && len(iface.Fields) > 0 {
+					implemented := false
+					for _, i := range obj.Interfaces {
+						if i == iface.Name {
+							implemented = true
+						}
+					}
+					if !implemented {
+						// the interface is added to an existing object that lacks its fields:
+						// the extension is applied, validation fails afterwards
+						return Fragment{Kind: "poison:validation:extend_implements_unsatisfied", Mutates: true,
+							Text: fmt.Sprintf("extend type %s implements %s {\n  %s: Int\n}\n", obj.Name, iface.Name, g.fresh("f"))}
+					}
+				}
+			case 14:
+				if len(g.St.Dirs) > 0 && obj != nil {
+					// directive use with an argument that cannot be coerced, on an extend of an existing type
+					return Fragment{Kind: "poison:validation:extend_bad_directive_argument", Mutates: true,
+						Text: fmt.Sprintf("extend type %s @%s(x: \"nan\") {\n}\n", obj.Name, g.St.Dirs[0])}
 				}
 			}
 		case 4:
